@@ -275,4 +275,8 @@ def gen_project(rng, size="small", features=None, focus=None):
     if pick(rng, 0.7 if MULTIKEY else 0.25): cli["define"] = [rng.choice(VARS[:3]) + rng.choice(["=", "+="]) + rng.choice(["d1", "d 2", "${X}", ""]) for _ in range(rng.randint(1, 3))]
     if pick(rng, 0.15): cli["builders"] = rng.sample([b["name"] for b in builders], rng.randint(1, len(builders)))
     if pick(rng, 0.15): cli["apps"] = rng.sample([a["name"] for a in apps], rng.randint(1, len(apps)))
+    if layout and pick(rng, 0.3):
+        # local mode: started from a directory of the project, only the apps defined there
+        import os
+        cli["local"] = rng.choice(sorted({os.path.dirname(f) or "." for f in files}))
     return files, cli
